@@ -65,6 +65,9 @@ class NS(object):
         v = rec.fields[fld]
         d = self._ex.deref(v, self._st)
         if isinstance(d, (Closure, BoundMethod, FuncV, Rec)): return self._ex.as_fn(v, self._st)
+        if isinstance(d, (PyList, Tup)) and not d.items:
+            fty = self._ex.reg.field_type(rec.cls, fld)
+            if fty is not None and fty.kind in ('List', 'MList'): return z3.Empty(z3.SeqSort(fty.args[0].sort()))
         return self._ex.term_of(v, self._st)
     def has_field(self, name, fld):
         return fld in self._ex.deref(self._frame[name], self._st).fields
@@ -777,10 +780,11 @@ class ExprMixin(object):
         return []
 
     def ev_ListComp(self, n, st):
-        if len(n.generators) != 1 or n.generators[0].ifs: raise Unsupported('comprehension shape')
+        if len(n.generators) != 1 or len(n.generators[0].ifs) > 1: raise Unsupported('comprehension shape')
         g = n.generators[0]
         src = self.deref(self.ev1(g.iter, st), st)
         if isinstance(src, (Tup, PyList)):
+            if g.ifs: raise Unsupported('filtered comprehension over a concrete list')
             items, s = [], st
             for it in src.items:
                 s = s.copy(); self.bind(g.target, it, s)
@@ -800,11 +804,18 @@ class ExprMixin(object):
             k = fresh(IntS, 'ck')
             s2 = st.copy(); s2.pc += [k >= 0, k < z3.Length(src.z)]
             self.bind(g.target, wrap(src.elem, src.z[k]), s2)
+            cond = None
+            if g.ifs:
+                # [e for x in xs if c]: element k contributes [e_k] when c_k holds and nothing otherwise
+                rc = self.ev(g.ifs[0], s2)
+                if len(rc) != 1: raise Unsupported('forking comprehension filter')
+                cond, s2 = self.truth(rc[0][0], rc[0][1]), rc[0][1]
             res = self.ev(n.elt, s2)
             if len(res) != 1: raise Unsupported('forking comprehension')
             ev_, s3 = res[0]
             ety = _ty_of_sort(spec.result.basis()) if spec.result != DocList else T.Text
             got = z3.Unit(self.elem_term(ev_, ety, s3))
+            if cond is not None: got = z3.If(cond, got, z3.Empty(spec.result))
             self.obl('comprehension/%d' % ordinal, s3, got == spec.elem(*(ps + [k])), carries=True)
             return [(st.new_cell(SeqV(spec(*(ps + [z3.Length(src.z)])), ety)), st)]
         raise ComprehensionOverSymbolic(n, src)
@@ -1342,6 +1353,7 @@ def _ty_of_sort(s):
     if s == Doc: return T.Text
     if s == Fn: return T.Fn
     if s == Val: return T.Val
+    if str(s).startswith('Obj_'): return T.Obj(str(s)[4:])
     raise Unsupported('element sort %s' % s)
 
 class LocalClass(V):
@@ -1915,6 +1927,13 @@ class CallMixin(object):
             fields = [self.deref(x, st) for x in self.iter_concrete(args[1], st)]
             if not all(isinstance(x, PyStr) for x in fields): raise Unsupported('namedtuple with computed field names')
             return [(NTClass(nm.s if isinstance(nm, PyStr) else '<nt>', [x.s for x in fields]), st)]
+        if '%s.%s' % (mod, name) == 'wrapt.ObjectProxy.__init__' and isinstance(self.deref(args[0], st), Rec):
+            self.reg.assume('A6: wrapt.ObjectProxy.__init__(self, w) makes self.__wrapped__ refer to w')
+            self.deref(args[0], st).fields['__wrapped__'] = args[1]
+            return [(NONE, st)]
+        c = self.reg.get('<ext>', name) or self.reg.get('<ext>', ('%s.%s' % (mod, name)).split('.', 1)[1])
+        if c is not None and c.external:       # library function with an assumed (listed) contract
+            return self.call_contract(c, None, list(args), kw, st, node)
         raise Unsupported('external call %s.%s' % (mod, name))
 
 
